@@ -35,9 +35,15 @@ def run_case(case):
         for j in case["jobs"]:
             targets.append({"name": j["target"], "inputs": [], "outputs": [j["target"] + ".out"], "spec": "touch x"})
         conf = {}
-        if backend == "slurm":
+        via_cli = backend == "slurm" and case.get("accounting_via_cli")
+        if backend == "slurm" and not via_cli:
             conf["backend.slurm.accounting_enabled"] = bool(case.get("accounting", True))
         proj = H.Project(root, targets, backend=backend, config=conf)
+        if via_cli:
+            # the way a user switches it: gwf config set backend.slurm.accounting_enabled yes|no|true|false
+            c0, _, e0 = proj.gwf(["config", "set", "backend.slurm.accounting_enabled", case["accounting_via_cli"]])
+            if c0 != 0:
+                raise common.Broken("gwf config set failed: " + e0[-200:])
         for j in case["jobs"]:
             if not j["stale"]:
                 proj.put_file(j["target"] + ".out")
@@ -125,6 +131,12 @@ def build_cases(chk):
             cases.append(two("slurm", None, a, acc, stale_acct={"1000000": "FAILED", "5": "RUNNING"}))
     for _ in range(60 if chk.tier == "quick" else 600):
         cases.append(two("slurm", rng.choice(SLURM_SHORT), rng.choice(SLURM_LONG), rng.random() < 0.7, foreign=foreign))
+    # accounting switched the way a user does it (`gwf config set … yes|no|true|false`): a job that left the queue with a
+    # (stale or real) accounting record — with accounting off the record must not be consulted
+    for sp, acc in (("no", False), ("false", False), ("yes", True), ("true", True)):
+        for a in ("FAILED", "COMPLETED", "CANCELLED by 7"):
+            cases.append(two("slurm", None, a, acc, accounting_via_cli=sp, stale_acct={"1000000": "FAILED"}))
+        cases.append(two("slurm", "R", "FAILED", acc, accounting_via_cli=sp))
     for q in LSF:
         cases.append(two("lsf", q))
     for q in SGE:
